@@ -105,6 +105,9 @@ def grid(draw, max_len, jitter_ok=False):
         total += cnt
         if total >= max_len:
             break
+    if draw(st.integers(0, 4)) == 0:
+        # a data gap straight after the first sample: the record's first interval is much longer than its sampling step
+        stretches.insert(0, [1, float(min(stretches[0][1] * draw(st.sampled_from([8.0, 20.0, 50.0])), 1e3))])
     jit = 0.0
     if jitter_ok and draw(st.integers(0, 3)) == 0:
         jit = draw(fl(1e-6, 9e-4))
